@@ -1289,6 +1289,16 @@ func c11r6(c *Ctx) {
 				if !positional {
 					return
 				}
+				// a window cut with an explicit upper bound (`hs := headers[off:][:n]`) has the length the code
+				// computed, not the length a peer chose: whether n ≥ 1 is arithmetic this rule does not do (the
+				// un-windowed `headers[off]` it stands for was never a positional access either)
+				if o := f.ObjOf(ast.Unparen(ix.X)); o != nil {
+					if defs := wholeDefs(f, o); len(defs) == 1 && defs[0].RHS != nil {
+						if se, isSlice := ast.Unparen(defs[0].RHS).(*ast.SliceExpr); isSlice && se.High != nil {
+							return
+						}
+					}
+				}
 				k := ir.ExprString(ix.X)
 				if _, seen := groups[k]; !seen {
 					keys = append(keys, k)
